@@ -18,6 +18,7 @@ import (
 //   - a starter's flow / disruptive actions run once, only when every link matched; links' own flow
 //     actions never run; a link's non-disruptive actions (ctl) run when that link matched;
 //   - an interruption ends phases 1-4 at once.
+//
 // It returns the expected observables and the kinds of directives that took effect.
 func specRun(on bool, rules []ruleJ, req []bool) (*obsJ, []string) {
 	o := &obsJ{Evaluated: make([][]int, 5), Matched: make([][]int, 5)}
